@@ -1,5 +1,5 @@
 CLAIMED = False
-NOT_YET = "correspondence and oracle run green; theorems in progress (nothing is claimed yet)"
+NOT_YET = "being finished (seeds 1..6 + thorough run pending)"
 
 CFG = dict(
     rule="four case kinds, each against the real code. F (1 per run): go/ast re-reads saveState's ordered file-system steps with their error "
@@ -32,5 +32,43 @@ CFG = dict(
     timeout=dict(quick=900, thorough=3600),
 )
 
-MANIFEST = dict(text="", note="", technique="")
-THEOREMS = []
+MANIFEST = dict(
+    text="Lean 4 theorems over an executable model of (i) the replay cache of RunClientUpdater and (ii) the file-system steps of saveState. "
+         "(i) For ALL histories of status updates (any tags incl. no-publish / no-save / NEWDASTARD / unknown ones, repeats, unchanged values, "
+         "SENDALL and save timers anywhere): every SENDALL reply holds exactly one message per topic ever published, namely its most recent one "
+         "(C16_sendall_latest, C16_sendall_exact), and the settings a save hands to the config file hold the latest value of every persistent "
+         "topic (C16_saved_has_latest). (ii) For ALL directory states, contents and kill points (after any number of completed steps, or any "
+         "number of bytes into the non-atomic write of the temporary file, after any number of earlier complete saves): the file the next start-up "
+         "reads existed and is the complete old or the complete new version (C16_crash_safe, C16_crash_safe_history), proved through a general "
+         "theorem for every step list of a decidable 'safe shape' (C16_crash_safe_of_shape); an uninterrupted save installs the new content and "
+         "keeps the old one as backup. The step list, its error policies and the tag sets are RE-READ FROM THE GO SOURCE (go/ast) on every run "
+         "and compared with the model's constants, so a reordering of saveState breaks the correspondence (and, once transcribed, the "
+         "safe-shape obligation). Tie to the code on every run: real RunClientUpdater + real ZeroMQ SUB socket (live stream, SENDALL replies, "
+         "self-made saves read back); real saveState killed in a child process at every step boundary / inside the write, then the real "
+         "start-up path of cmd/dastard; typed save -> real start-up restore round trips. Two defects were found by this check and repaired: "
+         "the standard file was missing between the two renames of saveState (fix b58e5d8; C16_crash_unsafe_before_fix proves the old list "
+         "unsafe), and start-up panicked on a saved rejected SimPulse/Triangle request (fix b90050c).",
+    note="Trusted: Lean 4.33 kernel (axioms propext, Classical.choice, Quot.sound only; audited every run); the hand-written model is tied "
+         "to the Go code only by differential testing with seeded generators and the go/ast fact reader (not a proof); POSIX rename/link/unlink "
+         "atomicity and 'a kill cuts a write at any byte' are modelled, durability after power loss (fsync) is not; the viper/YAML/mapstructure "
+         "round trip of the persisted structures is a trusted parameter (exercised, not proved); ZeroMQ delivery trusted; a status object is "
+         "identified with its JSON text; tags are assumed distinct after lower-casing; values that json.Marshal rejects are outside the domain "
+         "(C16_sendall_needs_json_text shows the guard is necessary in the faithful model; the code path is still compared). EdgeMulti settings "
+         "(issue #271) and hardware-filled fields (Lancero DastardOutput, Abaco AvailableCards) are excluded from 'same settings'.",
+    technique="Lean 4 theorems (invariant over all update histories; general crash-safety theorem for step lists of a decidable shape) over an "
+              "executable model; model tied to the Go code by a differential correspondence run (real updater over ZeroMQ, child-process kills, "
+              "real start-up binary) and by facts re-read from the source with go/ast on every run",
+)
+
+THEOREMS = [
+    ("DastardV.Props.C16", "DastardV.C16.C16_sendall_latest"),
+    ("DastardV.Props.C16", "DastardV.C16.C16_sendall_exact"),
+    ("DastardV.Props.C16", "DastardV.C16.C16_sendall_needs_json_text"),
+    ("DastardV.Props.C16", "DastardV.C16.C16_saved_has_latest"),
+    ("DastardV.Props.C16", "DastardV.C16.C16_crash_safe_of_shape"),
+    ("DastardV.Props.C16", "DastardV.C16.C16_crash_safe"),
+    ("DastardV.Props.C16", "DastardV.C16.C16_crash_safe_history"),
+    ("DastardV.Props.C16", "DastardV.C16.C16_crash_unsafe_before_fix"),
+    ("DastardV.Props.C16", "DastardV.C16.C16_save_complete"),
+    ("DastardV.Props.C16", "DastardV.C16.C16_save_keeps_backup"),
+]
